@@ -1233,6 +1233,8 @@ def np_unique_rows(ctx: Ctx, a: Arr, return_index=False, return_inverse=False):
         out.append(iv)
     uniq.ghost["unique"] = (m, idx, inv)
     ctx.log_ghost("unique", (m, idx, inv))
+    # the same ghost, addressable by the matrix it was computed from (contracts should not depend on call order)
+    ctx.log_ghost("unique@src", dict(rowfn=rf, ghost=(m, idx, inv), idx_arr=out[1] if return_index else None))
     return out[0] if len(out) == 1 else tuple(out)
 
 
@@ -1256,6 +1258,7 @@ def np_argsort(ctx: Ctx, a: Arr):
         r.sorted_strict = True
         r.ghost["perm"] = (lambda t: t, lambda t: t)
         ctx.log_ghost("argsort", (lambda t: t, lambda t: t))
+        ctx.log_ghost("argsort@src", dict(src=a0, ghost=(lambda t: t, lambda t: t)))
         return r
     p = T.fresh_fun("asort", I, I)
     pinv = T.fresh_fun("asortinv", I, I)
@@ -1313,6 +1316,7 @@ def np_argsort(ctx: Ctx, a: Arr):
     r.distinct = True
     r.ghost["perm"] = (p, pinv)
     ctx.log_ghost("argsort", (p, pinv))
+    ctx.log_ghost("argsort@src", dict(src=a0, ghost=(p, pinv)))
     a0.ghost[ckey] = r
     return r
 
